@@ -354,8 +354,11 @@ def check(prog, rep):
                 kerns['numpy'] is kerns['dask'], 'both backends must run the same per-cell kernel')
         bandparams = [p for p in pub.params if p.endswith('_agg')]
         check_validate(prog, rep, pub, bandparams)
+    from ..sharedrules import check_validate_arrays
+    check_validate_arrays(prog, rep, 'M6-helper', 'validate_arrays')
     check_true_color(prog, rep)
     rep.floor('M1', 20)
+    rep.floor('M6-helper', 2)
     rep.floor('M2', 20)
     rep.floor('M3', 40)
     rep.floor('M6-validate', 10)
